@@ -46,7 +46,7 @@ class EnumClass(Native):
 def run_string_array(ctx, data, separator, item_class=str, fallback_class=None, separator_spaces='', skip_empty=False, max_item_num=None):
     """items ParserText._parse_string_array stores for ``data`` and the final cursor; raises Raised / Unsupported"""
     pt = ctx.model.cls('ParserText')
-    f = pt.methods['_parse_string_array']
+    f = pt.resolve('_parse_string_array')
 
     def extra(n, ev):
         d = ast.unparse(n.func)
@@ -122,7 +122,7 @@ def string_array_table(ctx, report, rule, style):
     for name in ('_parse_string_array', '_parse_string_until_separator', '_apply_item_class', '_check_separators'):
         if name in pt.methods:
             report.touch(pt.methods[name])
-    f = pt.methods['_parse_string_array']
+    f = pt.resolve('_parse_string_array')
     if style == 'ssh':
         known = {'a', 'bb', 'curve25519-sha256', 'aes128-ctr'}
         sep, spaces, skip = ',', '', False
